@@ -28,3 +28,24 @@ package utils
 //@   ensures C01.xor: result == xorfold(data, len(data))
 //@   loop 1 invariant acc: code == xorfold(data, rangeindex + 1)
 //@ spec xorfold(d []byte, n int) byte = ite(n <= 0, 0, xorfold(d, n-1) ^ d[n-1])
+
+// BCD2Time: two ASCII digits per byte; exactly six bytes are rendered as "20YY-MM-DD hh:mm:ss".
+//@ spec bcdhi(b byte) byte = (b >> 4) + '0'
+//@ spec bcdlo(b byte) byte = (b & 0x0f) + '0'
+//@ func BCD2Time
+//@   mode contract
+//@   ensures len6: len(bcd) == 6 ==> len(result) == 19
+//@   ensures lenN: len(bcd) != 6 ==> len(result) == 2*len(bcd)
+//@   ensures C08.fmt: len(bcd) == 6 ==> result[0] == '2' && result[1] == '0' && result[4] == '-' && result[7] == '-' && result[10] == ' ' && result[13] == ':' && result[16] == ':'
+//@   ensures C08.digits: len(bcd) == 6 ==> forall(k, 0, 6, result[2+3*k] == bcdhi(bcd[k]) && result[3+3*k] == bcdlo(bcd[k]))
+//@   ensures C07.plain: len(bcd) != 6 ==> forall(k, 0, len(bcd), result[2*k] == bcdhi(bcd[k]) && result[2*k+1] == bcdlo(bcd[k]))
+//@   loop 1 invariant digits: forall(k, 0, rangeindex + 1, result[2*k] == bcdhi(bcd[k]) && result[2*k+1] == bcdlo(bcd[k]))
+//@   loop 1 invariant input: forall(k, 0, len(bcd), bcd[k] == old(bcd[k]))
+//@   loop 1 invariant fresh: fresh(result)
+
+//@ func String2FillingBytes
+//@   mode contract
+//@   requires size: size >= 0 && size <= 65536
+//@   ensures len: len(result) == size
+//@   ensures fresh: fresh(result)
+//@   ensures C07.prefix: forall(k, 0, size, result[k] == ite(k < len(text), text[k], 0))
